@@ -134,7 +134,35 @@ class BisectIntervalDict:
     def intervals(self):
         return list(self._iv)
 
+    # The tables are shared module-level state: kernels only read them.  Writes are not applied (the stand-in is
+    # cached per process) but counted, so that a harness can assert "using the tables does not change them".
+    def __setitem__(self, key, value):
+        TABLE_WRITES[0] += 1
 
+    def __delitem__(self, key):
+        TABLE_WRITES[0] += 1
+
+    def setdefault(self, key, default=None):
+        c = self._find(key)
+        if c is None:
+            TABLE_WRITES[0] += 1
+            return default
+        return c[2]
+
+    def pop(self, key, *default):
+        TABLE_WRITES[0] += 1
+        c = self._find(key)
+        if c is None:
+            if default:
+                return default[0]
+            raise KeyError("status not in table")
+        return c[2]
+
+    def update(self, *a, **k):
+        TABLE_WRITES[0] += 1
+
+
+TABLE_WRITES = [0]
 _IV_CACHE = {}
 
 
